@@ -222,7 +222,7 @@ class PatchLinkage:
         patch_links = dict()
         for patch_id, patch_center, patch_radius in zip(patch_ids, centers, radii):
             distances = centers.distance(patch_center)
-            linked = distances < (radii + patch_radius + max_scale_angle)
+            linked = distances.data <= (radii + patch_radius + max_scale_angle).data
             patch_links[patch_id] = set(compress(patch_ids, linked))
 
         return cls(config, patch_links)
